@@ -1,9 +1,343 @@
-import Echse.Model.Tz
-namespace C07
-open Echse.Tz
+/-
+  C07 — time-zone table look-ups (`tzraw.c`, `tzob.c`), for EVERY well-formed zone table.
 
-/-- smoke (general statements replace this): the last recorded transition itself is found (was finding D06) -/
-theorem last_transition_found :
-    findTrno { trs := [10, 20, 30], tys := [0, 1, 0], offs := [0, 3600] } 30 0 3 = some 2 := by decide
+  Vocabulary (Echse/Lemmas/Tz.lean):
+    `I32 t`        `t` fits the `int32_t` parameter;
+    `WF z`         transition times strictly increasing and within int32, one type index per
+                   transition, every index below the number of types, fewer than 256
+                   transitions, every offset within ±86400 s, not the UTC zone;
+    `tr z i`       the `i`-th transition time;
+    `trIdx z t`    (number of transitions `≤ t`) − 1: the last transition at or before `t`,
+                   `-1` when there is none;
+    `off z t`      the UTC offset in force at `t`: the offset of the type of transition
+                   `trIdx z t`, of type 0 before the first transition — the uncached spec;
+    `CacheOK z c`  the cache is fresh or holds a range on which `off z` is constant;
+    `NoTrBetween`, `Far`, `OffsLe`   windows free of transitions (item 4).
+
+  1 search, 2 range, 3 cache, 4 local ↔ UTC, 5 instants.
+  Statements only; helper lemmas live in Echse/Lemmas/Tz*.lean.
+-/
+import Echse.Lemmas.Tz
+import Echse.Lemmas.Tz2
+import Echse.Lemmas.Tz3
+namespace C07
+open Echse.Tz Echse.Instant Echse.Spec.Cal
+
+/-! ### 1. the search -/
+
+/-- The bisection loop ends when entered with an interval of width at most `2^k` and `k + 1`
+rounds of fuel: every round returns or at least halves (rounding up) `max − min`, and an
+interval of width 1 returns at once. -/
+theorem bisect_terminates (z : Zone) (wf : WF z) (t : Int) (fuel k : Nat) (min max : Int)
+    (h0 : 0 ≤ min) (hlt : min < max) (hmax : max ≤ z.ntr) (hw : max - min ≤ (2 ^ k : Nat)) (hk : k < fuel)
+    (hlo : zifTrans z min ≤ t) (hhi : t < zifTrans z max) :
+    ∃ r, bisect z t fuel min max = some r ∧ min ≤ r ∧ r < max ∧
+      zifTrans z r ≤ t ∧ t < zifTrans z (r + 1) :=
+  bisect_spec z wf t fuel k min max h0 hlt hmax hw hk hlo hhi
+
+/-- `__find_trno(z, t, 0, ntrans)` terminates within the fuel (9 rounds suffice for fewer
+than 256 transitions, the model allows 64) and returns the last transition at or before
+`t`: `-1` iff there is none, otherwise the `k` with `trs[k] ≤ t < trs[k+1]` (no upper
+bound for the last one).  `t` need not even fit int32. -/
+theorem search (z : Zone) (wf : WF z) (t : Int) :
+    ∃ k, findTrno z t 0 z.ntr = some k ∧ k = trIdx z t ∧
+      (k = -1 ↔ (z.ntr = 0 ∨ t < tr z 0)) ∧
+      (k ≠ -1 → 0 ≤ k ∧ k < z.ntr ∧ tr z k.toNat ≤ t ∧ (k + 1 < z.ntr → t < tr z (k + 1).toNat)) := by
+  have hI := isIdx_trIdx z wf t
+  refine ⟨_, findTrno_eq z wf t, rfl, ?_, ?_⟩
+  · rcases hI with ⟨e, h⟩ | ⟨a, b, c, d⟩
+    · exact ⟨fun _ => h, fun _ => e⟩
+    · constructor
+      · intro e; omega
+      · intro h; exfalso
+        have := tr_mono_le z wf 0 (trIdx z t).toNat (by omega) (by omega)
+        omega
+  · intro hne
+    rcases hI with ⟨e, _⟩ | h
+    · exact absurd e hne
+    · exact h
+
+/-- the characterisation determines `k` -/
+theorem search_unique (z : Zone) (wf : WF z) (t k : Int)
+    (h : (k = -1 ∧ (z.ntr = 0 ∨ t < tr z 0)) ∨
+      (0 ≤ k ∧ k < z.ntr ∧ tr z k.toNat ≤ t ∧ (k + 1 < z.ntr → t < tr z (k + 1).toNat))) :
+    findTrno z t 0 z.ntr = some k := by
+  rw [findTrno_eq z wf t, isIdx_unique z wf t k h]
+
+/-- at or after the last recorded transition — in particular AT it — the search returns the
+last index (this case used to loop forever). -/
+theorem search_last (z : Zone) (wf : WF z) (hn : z.ntr ≠ 0) (t : Int) (ht : tr z (z.ntr - 1) ≤ t) :
+    findTrno z t 0 z.ntr = some ((z.ntr : Int) - 1) := by
+  apply search_unique z wf
+  refine Or.inr ⟨by omega, by omega, ?_, by omega⟩
+  have : ((z.ntr : Int) - 1).toNat = z.ntr - 1 := by omega
+  rw [this]; exact ht
+
+theorem search_last_eq (z : Zone) (wf : WF z) (hn : z.ntr ≠ 0) :
+    findTrno z (tr z (z.ntr - 1)) 0 z.ntr = some ((z.ntr : Int) - 1) :=
+  search_last z wf hn _ (Int.le_refl _)
+
+/-! ### 2. the enclosing range -/
+
+/-- `__find_zrng` for an int32 `t`: the range `[prev, next)` contains `t` — except that
+`t = intMax` is reported with `next = intMax` (`intMax` stands for +∞ in the last range; the
+cache test `t < next` therefore never hits for `t = intMax`, which is recomputed each time);
+its offset is the offset in force at `t`; and the range is homogeneous: every `t'` in it
+yields the very same range, hence the same offset. -/
+theorem range (z : Zone) (wf : WF z) (t : Int) (ht : I32 t) :
+    ∃ r, findZrng z t = some r ∧
+      r.prev ≤ t ∧ (t < r.next ∨ (t = intMax ∧ r.next = intMax)) ∧
+      intMin ≤ r.prev ∧ r.next ≤ intMax ∧
+      r.offs = off z t ∧ (r.trno : Int) = max (trIdx z t) 0 ∧
+      (∀ t', r.prev ≤ t' → t' < r.next → findZrng z t' = some r ∧ off z t' = r.offs) := by
+  obtain ⟨b1, b2, b3, b4⟩ := rngAt_bounds z wf t ht
+  refine ⟨_, findZrng_eq z wf t ht, b1, b2, b3, b4, rngAt_offs z _, ?_, ?_⟩
+  · by_cases hk : trIdx z t < 0
+    · rw [rngAt_neg z _ hk]; simp only []; omega
+    · rw [rngAt_nonneg z _ (by omega)]; simp only []; omega
+  · intro t' h1 h2
+    have e := findZrng_homog z wf t t' h1 h2
+    have ht' : I32 t' := by
+      rw [I32_iff] at *; simp only [intMin, intMax] at b3 b4; omega
+    refine ⟨by rw [findZrng_eq z wf t' ht', e], ?_⟩
+    unfold off; rw [e, rngAt_offs]
+
+/-- the offset of the range spelled out: the type of transition `k`, type 0 for `k = -1` -/
+theorem off_eq (z : Zone) (t : Int) :
+    off z t = if trIdx z t < 0 then z.offs.getD 0 0
+              else z.offs.getD (z.tys.getD (trIdx z t).toNat 0) 0 := rfl
+
+/-- … and `k` is the index the search returns -/
+theorem range_offs (z : Zone) (wf : WF z) (t : Int) (ht : I32 t) :
+    ∃ k r, findTrno z t 0 z.ntr = some k ∧ findZrng z t = some r ∧
+      r.offs = (if k = -1 then z.offs.getD 0 0 else zifTroffs z k) := by
+  refine ⟨_, _, findTrno_eq z wf t, findZrng_eq z wf t ht, ?_⟩
+  rw [rngAt_offs]
+  obtain ⟨l, u⟩ := trIdx_range z t
+  unfold offAt
+  by_cases hk : trIdx z t = -1
+  · rw [if_pos hk, if_pos (by omega)]
+  · rw [if_neg hk, if_neg (by omega)]
+    unfold zifTroffs
+    rw [zifType_lt z _ (by omega) u]
+
+/-- at `t = intMax` the reported range always ends at `intMax` -/
+theorem range_intMax (z : Zone) (wf : WF z) :
+    ∃ r, findZrng z intMax = some r ∧ r.next = intMax ∧ r.offs = off z intMax := by
+  obtain ⟨r, e, _, h, _, _, o, _⟩ := range z wf intMax (by decide)
+  refine ⟨r, e, ?_, o⟩
+  rcases h with h | h
+  · omega
+  · exact h.2
+
+/-! ### 3. the cache is transparent -/
+
+theorem cacheOK_fresh (z : Zone) : CacheOK z ZRng.fresh := Or.inl rfl
+
+/-- a look-up through any admissible cache returns the uncached offset and leaves an
+admissible cache -/
+theorem cache_transparent (z : Zone) (wf : WF z) (c : ZRng) (hc : CacheOK z c) (t : Int) (ht : I32 t) :
+    ∃ c', offsC z c t = some (off z t, c') ∧ CacheOK z c' :=
+  offsC_spec z wf c hc t ht
+
+/-- `time_t` arguments outside int32 are truncated first -/
+theorem cache_transparent_wrap (z : Zone) (wf : WF z) (c : ZRng) (hc : CacheOK z c) (t : Int) :
+    ∃ c', offsC z c t = some (off z (wrap32 t), c') ∧ CacheOK z c' := by
+  have hw : I32 (wrap32 t) := by rw [I32_iff]; unfold wrap32; omega
+  obtain ⟨c', e, h⟩ := offsC_spec z wf c hc (wrap32 t) hw
+  refine ⟨c', ?_, h⟩
+  unfold offsC at e ⊢
+  rw [wrap32_of_I32 _ hw] at e
+  exact e
+
+/-- any sequence of look-ups (`offsSeq` threads the cache through) returns the uncached offsets -/
+theorem cache_sequence (z : Zone) (wf : WF z) (c : ZRng) (hc : CacheOK z c) (ts : List Int)
+    (h : ∀ t ∈ ts, I32 t) :
+    ∃ c', offsSeq z c ts = some (ts.map (off z), c') ∧ CacheOK z c' :=
+  offsSeq_spec z wf ts c hc h
+
+/-! ### 4. local ↔ UTC -/
+
+/-- `zif_local_time` adds the offset in force -/
+theorem local_time (z : Zone) (wf : WF z) (c : ZRng) (hc : CacheOK z c) (u : Int) (hu : I32 u) :
+    ∃ c', localTime z c u = some (u + off z u, c') ∧ CacheOK z c' :=
+  localTime_spec z wf c hc u hu
+
+/-- what the two-step fixed point `zif_utc_time` computes for a wall-clock value `w`:
+`x1 := off w` (the wall clock read as UTC), `x2 := off (w − x1)`, result `w − x2`
+(the shortcut for `x1 = 0` gives the same value). -/
+theorem utc_time_value (z : Zone) (wf : WF z) (c : ZRng) (hc : CacheOK z c) (w : Int) (hw : I32 w)
+    (hw' : I32 (w - off z w)) :
+    ∃ c', utcTime z c w = some (w - off z (w - off z w), c') ∧ CacheOK z c' :=
+  utcTime_eq z wf c hc w hw hw'
+
+/-- For the wall clock `w = u + off u` of a UTC time `u` the result is `u` EXACTLY WHEN the
+second look-up finds the offset in force at `u` (the first-guess condition). -/
+theorem utc_of_local_iff (z : Zone) (wf : WF z) (c : ZRng) (hc : CacheOK z c) (u : Int)
+    (hw : I32 (u + off z u)) (hw' : I32 (u + off z u - off z (u + off z u))) :
+    ∃ r c', utcTime z c (u + off z u) = some (r, c') ∧ CacheOK z c' ∧
+      (r = u ↔ off z (u + off z u - off z (u + off z u)) = off z u) := by
+  obtain ⟨c', e, h⟩ := utcTime_eq z wf c hc (u + off z u) hw hw'
+  exact ⟨_, c', e, h, utcTime_hit_iff z u⟩
+
+theorem utc_of_local (z : Zone) (wf : WF z) (c : ZRng) (hc : CacheOK z c) (u : Int)
+    (hw : I32 (u + off z u)) (hw' : I32 (u + off z u - off z (u + off z u)))
+    (hfg : off z (u + off z u - off z (u + off z u)) = off z u) :
+    ∃ c', utcTime z c (u + off z u) = some (u, c') ∧ CacheOK z c' := by
+  obtain ⟨c', e, h⟩ := utcTime_eq z wf c hc (u + off z u) hw hw'
+  refine ⟨c', ?_, h⟩
+  rw [e, (utcTime_hit_iff z u).2 hfg]
+
+/-- the first-guess condition holds when no transition lies between `w − x1` and `u` … -/
+theorem firstGuess_of_window (z : Zone) (u : Int)
+    (h : NoTrBetween z (u + off z u - off z (u + off z u)) u) :
+    off z (u + off z u - off z (u + off z u)) = off z u :=
+  off_eq_of_noTr z _ _ h
+
+/-- … in particular when `u` is at least `2·M` away from every transition, `M` bounding the
+magnitude of the offsets (`M = 86400` always does for a `WF` table); the wall clock is then
+unambiguous as well. -/
+theorem firstGuess_of_far (z : Zone) (M u : Int) (hM : OffsLe z M) (hf : Far z M u) :
+    off z (u + off z u - off z (u + off z u)) = off z u ∧
+    (∀ u', u' + off z u' = u + off z u → u' = u) :=
+  ⟨far_firstGuess z M u hM hf, far_unambiguous z M u hM hf⟩
+
+theorem offsLe_wf (z : Zone) (wf : WF z) : OffsLe z 86400 := offsLe_of_wf z wf
+
+/-- round trip `utcTime (localTime u) = u` under the first-guess condition, the cache
+threaded through -/
+theorem utc_local_roundtrip (z : Zone) (wf : WF z) (c : ZRng) (hc : CacheOK z c) (u : Int) (hu : I32 u)
+    (hw : I32 (u + off z u)) (hw' : I32 (u + off z u - off z (u + off z u)))
+    (hfg : off z (u + off z u - off z (u + off z u)) = off z u) :
+    ∃ w c1 c2, localTime z c u = some (w, c1) ∧ utcTime z c1 w = some (u, c2) ∧ CacheOK z c2 := by
+  obtain ⟨c1, e1, h1⟩ := localTime_spec z wf c hc u hu
+  obtain ⟨c2, e2, h2⟩ := utc_of_local z wf c1 h1 u hw hw' hfg
+  exact ⟨_, c1, c2, e1, e2, h2⟩
+
+/-! ### 5. instants -/
+
+/-- all-day instants pass unchanged -/
+theorem instant_allDay (z : Zone) (c : ZRng) (i : Inst) (h : i.isAllDay = true) :
+    instantLoc z c i = some (i, c) ∧ instantUtc z c i = some (i, c) ∧ tzobOffs z i = some 0 := by
+  unfold instantLoc instantUtc tzobOffs; simp [h]
+
+/-- `echs_instant_loc`: the instant `off z (epoch i)` seconds later -/
+theorem instant_loc (z : Zone) (wf : WF z) (c : ZRng) (hc : CacheOK z c) (i : Inst)
+    (h : NormalSec i) (hy1 : 1970 ≤ i.y) (hy2 : i.y ≤ 2037) :
+    ∃ j c', instantLoc z c i = some (j, c') ∧ CacheOK z c' ∧ NormalSec j ∧ InRange j ∧
+      absSec j = absSec i + off z (ep i) := by
+  obtain ⟨e, l, u⟩ := ep_spec i h hy1 hy2
+  have b := off_bound z wf (ep i)
+  have hd := days_1901
+  have hd' := days_2100
+  have he := epochDays_eq
+  exact instantLoc_gen z wf c hc i h ⟨by omega, by omega⟩ (by rw [I32_iff]; omega)
+    (by omega) (by omega)
+
+/-- `echs_instant_utc`: the instant `off z (w − off z w)` seconds earlier, `w = epoch i` -/
+theorem instant_utc (z : Zone) (wf : WF z) (c : ZRng) (hc : CacheOK z c) (i : Inst)
+    (h : NormalSec i) (hy1 : 1970 ≤ i.y) (hy2 : i.y ≤ 2037) :
+    ∃ j c', instantUtc z c i = some (j, c') ∧ CacheOK z c' ∧ NormalSec j ∧ InRange j ∧
+      absSec j = absSec i - off z (ep i - off z (ep i)) := by
+  obtain ⟨e, l, u⟩ := ep_spec i h hy1 hy2
+  have b := off_bound z wf (ep i)
+  have b' := off_bound z wf (ep i - off z (ep i))
+  have hd := days_1901
+  have hd' := days_2100
+  have he := epochDays_eq
+  exact instantUtc_gen z wf c hc i h ⟨by omega, by omega⟩ (by rw [I32_iff]; omega)
+    (by rw [I32_iff]; omega) (by omega) (by omega)
+
+/-- if `i` shows the wall clock of the UTC time `u` and the first-guess condition of item 4
+holds, `echs_instant_utc` returns the instant of `u` -/
+theorem instant_utc_of_local (z : Zone) (wf : WF z) (c : ZRng) (hc : CacheOK z c) (i : Inst)
+    (h : NormalSec i) (hy1 : 1970 ≤ i.y) (hy2 : i.y ≤ 2037) (u : Int) (hu : ep i = u + off z u)
+    (hfg : off z (u + off z u - off z (u + off z u)) = off z u) :
+    ∃ j c', instantUtc z c i = some (j, c') ∧ CacheOK z c' ∧ NormalSec j ∧ InRange j ∧
+      absSec j = absSec i - off z u ∧ (0 ≤ u → ep j = u) := by
+  obtain ⟨j, c', e, hc', n, r, a⟩ := instant_utc z wf c hc i h hy1 hy2
+  rw [hu, hfg] at a
+  refine ⟨j, c', e, hc', n, r, a, ?_⟩
+  intro h0
+  obtain ⟨e1, l, up⟩ := ep_spec i h hy1 hy2
+  have b := off_bound z wf u
+  exact ep_of_absSec j n u h0 (by omega) (by omega)
+
+/-- round trip on instants: `echs_instant_utc (echs_instant_loc i) = i` under the first-guess
+condition at `u = epoch i` (and the local time not before 1970) -/
+theorem instant_roundtrip (z : Zone) (wf : WF z) (c : ZRng) (hc : CacheOK z c) (i : Inst)
+    (h : NormalSec i) (hy1 : 1970 ≤ i.y) (hy2 : i.y ≤ 2037) (h0 : 0 ≤ ep i + off z (ep i))
+    (hfg : off z (ep i + off z (ep i) - off z (ep i + off z (ep i))) = off z (ep i)) :
+    ∃ j c1 c2, instantLoc z c i = some (j, c1) ∧ instantUtc z c1 j = some (i, c2) ∧ CacheOK z c2 := by
+  obtain ⟨e, l, u⟩ := ep_spec i h hy1 hy2
+  obtain ⟨j, c1, e1, h1, n, r, a⟩ := instant_loc z wf c hc i h hy1 hy2
+  have b := off_bound z wf (ep i)
+  have hj : ep j = ep i + off z (ep i) := ep_of_absSec j n _ h0 (by omega) (by omega)
+  have b' := off_bound z wf (ep j)
+  have b'' := off_bound z wf (ep j - off z (ep j))
+  have hd := days_1901
+  have hd' := days_2100
+  have he := epochDays_eq
+  obtain ⟨j', c2, e2, h2, n', r', a'⟩ := instantUtc_gen z wf c1 h1 j n r (by rw [I32_iff]; omega)
+    (by rw [I32_iff]; omega) (by omega) (by omega)
+  have : j' = i := by
+    apply absSec_inj _ _ n' h
+    rw [a', hj, hfg]; omega
+  rw [this] at e2
+  exact ⟨j, c1, c2, e1, e2, h2⟩
+
+/-- `echs_tzob_offs` (uncached) reports the offset in force -/
+theorem instant_offs (z : Zone) (wf : WF z) (i : Inst)
+    (h : NormalSec i) (hy1 : 1970 ≤ i.y) (hy2 : i.y ≤ 2037) :
+    tzobOffs z i = some (off z (ep i)) := by
+  obtain ⟨e, l, u⟩ := ep_spec i h hy1 hy2
+  exact tzobOffs_gen z wf i h.2.1 (by rw [I32_iff]; omega)
+
+/-! ### examples on a small table: a gap (1000: 0 → +1h), a fold (20000: +1h → 0), and two
+transitions closer together than the offsets (40000: 0 → +1h, 40500: +1h → +2h) -/
+
+def zEx : Zone := { trs := [1000, 20000, 40000, 40500], tys := [1, 0, 1, 2], offs := [0, 3600, 7200] }
+
+example : WF zEx := by decide
+example : findTrno zEx 40500 0 4 = some 3 := by decide           -- the last transition itself
+example : findTrno zEx 999 0 4 = some (-1) := by decide
+example : findTrno zEx 1000 0 4 = some 0 := by decide
+example : findTrno zEx 39999 0 4 = some 1 := by decide
+example : findZrng zEx 30000 = some { prev := 20000, next := 40000, offs := 0, trno := 1 } := by decide
+example : findZrng zEx intMax = some { prev := 40500, next := intMax, offs := 7200, trno := 3 } := by decide
+example : findZrng zEx intMin = some { prev := intMin, next := 1000, offs := 0, trno := 0 } := by decide
+example : (List.map (off zEx) [999, 1000, 19999, 20000, 40400, 40500]) = [0, 3600, 3600, 0, 3600, 7200] := by decide
+example : (offsSeq zEx ZRng.fresh [999, 1000, 5, 19999, 20000, 1500]).map (·.1) = some [0, 3600, 0, 3600, 0, 3600] := by decide
+-- ordinary instants: the round trip works
+example : localTime zEx ZRng.fresh 10000 = some (13600, { prev := 1000, next := 20000, offs := 3600, trno := 0 }) := by decide
+example : (utcTime zEx ZRng.fresh 13600).map (·.1) = some 10000 := by decide
+-- fold: UTC 19000 and UTC 22600 both show wall clock 22600; the later one is returned
+example : (localTime zEx ZRng.fresh 19000).map (·.1) = some 22600 := by decide
+example : (utcTime zEx ZRng.fresh 22600).map (·.1) = some 22600 := by decide
+example : off zEx (22600 - off zEx 22600) ≠ off zEx 19000 := by decide     -- the condition fails at u = 19000
+-- gap: wall clock 2000 does not exist (1000 jumps to 4600); it is read with the offset before the gap
+example : (utcTime zEx ZRng.fresh 2000).map (·.1) = some 2000 := by decide
+-- an unambiguous wall clock for which two steps are not enough: UTC 40400 shows 44000,
+-- the first guess (offset at 44000 = +2h) lands before the 40000 transition
+example : (localTime zEx ZRng.fresh 40400).map (·.1) = some 44000 := by decide
+example : (utcTime zEx ZRng.fresh 44000).map (·.1) = some 44000 := by decide
+example : off zEx (44000 - off zEx 44000) ≠ off zEx 40400 := by decide
+/-- … although 40400 is the only UTC time showing 44000: unambiguity alone does not suffice -/
+theorem example_unambiguous : ∀ u', u' + off zEx u' = 44000 → u' = 40400 := by
+  intro u' h
+  simp only [off, offAt, trIdx, zEx, List.countP_cons, List.countP_nil] at h
+  simp only [decide_eq_true_eq] at h
+  split at h <;> (try split at h) <;> (try split at h) <;> (try split at h) <;> (try split at h) <;>
+    simp at h <;> omega
+
+-- instants: Europe/Berlin 2020 (CET +1h, CEST +2h from 2020-03-29T01:00Z to 2020-10-25T01:00Z)
+def zBer : Zone := { trs := [1585443600, 1603587600], tys := [1, 0], offs := [3600, 7200] }
+example : WF zBer := by decide
+example : (instantLoc zBer ZRng.fresh ⟨2020,7,1,12,0,0,1023⟩).map (·.1) = some ⟨2020,7,1,14,0,0,1023⟩ := by decide
+example : (instantUtc zBer ZRng.fresh ⟨2020,7,1,14,0,0,1023⟩).map (·.1) = some ⟨2020,7,1,12,0,0,1023⟩ := by decide
+example : (instantLoc zBer ZRng.fresh ⟨2020,12,31,23,30,0,1023⟩).map (·.1) = some ⟨2021,1,1,0,30,0,1023⟩ := by decide
+example : (instantLoc zBer ZRng.fresh ⟨2020,7,1,255,0,0,0⟩).map (·.1) = some ⟨2020,7,1,255,0,0,0⟩ := by decide
+example : tzobOffs zBer ⟨2020,3,29,1,0,0,1023⟩ = some 7200 := by decide
+example : tzobOffs zBer ⟨2020,3,29,0,59,59,1023⟩ = some 3600 := by decide
 
 end C07
